@@ -76,6 +76,14 @@ def main(argv=None):
                          indent=1, default=core._json_default))
         return 1 if out.violation else 0
     if args.replay:
+        with open(args.replay) as fh:
+            want_opt = int(json.load(fh).get('python_optimize', 0) or 0)
+        if bool(want_opt) != bool(sys.flags.optimize):
+            # the violation was found under another interpreter configuration: replay under the same one
+            import subprocess
+            cmd = [sys.executable] + (['-O'] if want_opt else []) + ['-B', '-X', 'faulthandler', os.path.abspath(__file__)] + \
+                  (argv if argv is not None else sys.argv[1:])
+            return subprocess.call(cmd, env=dict(os.environ, PYTHONOPTIMIZE='' if not want_opt else os.environ.get('PYTHONOPTIMIZE', '')))
         return driver.replay(mod, args.replay, root)
     if args.selftest:
         return driver.selftest(mod, args.tier, args.seed, root)
